@@ -116,24 +116,38 @@ func c28SplitRMW(c *core.Ctx) {
 					if res.Sections[f][m] >= 1 {
 						secs = append(secs, sec{short(f.Name) + " (inline)", f.Pos(), sectionSum(f, m, 0)})
 					}
-					for _, cs := range f.Calls() {
-						fn, ok := cs.Callee.(*types.Func)
-						if !ok {
-							continue
-						}
-						ci := p.FuncOf(fn)
-						if ci == nil || !inSet[ci] || ci == f {
-							continue
-						}
-						if res.Sections[ci][m] >= 1 && res.Entry[ci][m] == core.LNone {
-							secs = append(secs, sec{short(ci.Name), cs.Pos(), sectionSum(ci, m, 0)})
+					// (directly, or through helpers that run without M and call such functions: a phase of the
+					// operation moved into a helper keeps its critical sections)
+					var collect func(g *core.FuncInfo, top token.Pos, depth int, seen map[*core.FuncInfo]bool)
+					collect = func(g *core.FuncInfo, top token.Pos, depth int, seen map[*core.FuncInfo]bool) {
+						for _, cs := range g.Calls() {
+							fn, ok := cs.Callee.(*types.Func)
+							if !ok {
+								continue
+							}
+							ci := p.FuncOf(fn)
+							if ci == nil || !inSet[ci] || ci == f || seen[ci] || res.Entry[ci][m] != core.LNone {
+								continue
+							}
+							pos := top
+							if g == f {
+								pos = cs.Pos()
+							}
+							if res.Sections[ci][m] >= 1 {
+								secs = append(secs, sec{short(ci.Name), pos, sectionSum(ci, m, 0)})
+							} else if depth > 0 && ci.Obj != nil && !ci.Obj.Exported() {
+								seen[ci] = true
+								collect(ci, pos, depth-1, seen)
+								delete(seen, ci)
+							}
 						}
 					}
+					collect(f, token.NoPos, 2, map[*core.FuncInfo]bool{f: true})
 					if len(secs) < 2 {
 						continue
 					}
 					nOps++
-					sort.Slice(secs, func(i, j int) bool { return secs[i].pos < secs[j].pos })
+					sort.SliceStable(secs, func(i, j int) bool { return secs[i].pos < secs[j].pos })
 					bad := ""
 					var badPos token.Pos
 					for i := 0; i < len(secs) && bad == ""; i++ {
@@ -160,4 +174,5 @@ func c28SplitRMW(c *core.Ctx) {
 		}
 		c.Note("operations with several critical sections of one mutex examined for split read-modify-write: %d", nOps)
 	})
+	c28ViewConsistency(c)
 }
